@@ -88,6 +88,9 @@ type serverCase struct {
 	MD      string `json:"md,omitempty"`      // metadata the handler sets: "" | header | trailer | both
 	Msg     string `json:"msg,omitempty"`     // status message: "" = "msg" | empty | colon
 	Details int    `json:"details,omitempty"` // number of status details (0..2)
+	// Hdr: the verb(s) the handler hands its response headers over with before it returns
+	// (sendhdr.go): "" = grpc.SetHeader | send | set+send | send+set
+	Hdr string `json:"hdr,omitempty"`
 	// Collide: a handler-set metadata entry whose key collides with a header of the
 	// protocol itself (collide.go); Chain: the handler is a gateway that first relays the
 	// response metadata of a backend call (collide.go); Wire: over net/http on loopback
@@ -293,9 +296,7 @@ func buildServer(c serverCase) (*httpgrpc.Server, func()) {
 			return nil, err
 		}
 		relay(ctx)
-		if mdHasHeader(c.MD) {
-			grpc.SetHeader(ctx, metadata.Pairs("h-key", "h-val"))
-		}
+		c.applyHeaders(ctx) // grpc.SetHeader and / or grpc.SendHeader (sendhdr.go)
 		if mdHasTrailer(c.MD) {
 			grpc.SetTrailer(ctx, metadata.Pairs("t-key", "t-val"))
 		}
@@ -660,6 +661,9 @@ func (c serverCase) extras(o optSet) string {
 	if c.Chain != nil {
 		s += fmt.Sprintf("|backend=%d|backend-details=%d|relay=%s", c.Chain.BCode, c.Chain.BDetails, c.Chain.Relay)
 	}
+	if c.Hdr != "" && c.Chain == nil && c.Collide == nil {
+		s = c.hdrTail()
+	}
 	if c.Wire {
 		s += "|wire"
 	}
@@ -688,6 +692,8 @@ func extras(md, msg string, details int, o optSet) string {
 // renderer (and backend outcome, "wire") of the simplest failing member go into the tail.
 func (c serverCase) group(clause string) string {
 	switch {
+	case c.Hdr != "" && c.Chain == nil && c.Collide == nil:
+		return c.hdrGroup(clause)
 	case c.Chain != nil:
 		return fmt.Sprintf("C14|chain|gateway=%s|%s", c.outcome(), clause)
 	case c.Collide != nil:
@@ -1038,6 +1044,48 @@ func main() {
 	}
 	serverSets = optSets // the phases below: the older lists
 
+	// (m) the verb the handler hands its response headers over with (sendhdr.go), crossed
+	// with phase (a): codes x live/cancelled x renderers x handler metadata x 0..1 details
+	// x the older option lists; then the GRPC-Timeout and error-carrying-OK cases
+	hdrCases, hdrWireCases := 0, 0
+	for _, code := range codeList {
+		for _, cancelled := range []bool{false, true} {
+			for _, r := range renderersA {
+				for _, md := range mds {
+					for _, how := range hdrHows(md) {
+						for det := 0; det <= 1; det++ {
+							if code == 0 && det != 0 {
+								continue
+							}
+							c := serverCase{Kind: "server", Code: code, Cancelled: cancelled, Renderer: r, MD: md, Details: det, Hdr: how}
+							hdrCases++
+							doServer(c, fmt.Sprintf("srv-hdr|%s|%d|%v|%s|%s|%d", how, code, cancelled, r, md, det))
+						}
+					}
+				}
+			}
+		}
+	}
+	for _, md := range []string{"", "both"} {
+		for _, how := range hdrHows(md) {
+			for _, cancelled := range []bool{false, true} {
+				for _, code := range []uint32{1, 4, 5} {
+					for _, to := range []string{"1n", "1H"} {
+						c := serverCase{Kind: "server", Code: code, Cancelled: cancelled, Renderer: "default", Timeout: to, MD: md, Hdr: how}
+						hdrCases++
+						doServer(c, fmt.Sprintf("srv-hdr|%s|%d|%v|timeout=%s|%s", how, code, cancelled, to, md))
+					}
+				}
+				for _, r := range renderersA {
+					c := serverCase{Kind: "server", Code: 0, Cancelled: cancelled, Renderer: r, OKErr: true, MD: md, Hdr: how}
+					hdrCases++
+					doServer(c, fmt.Sprintf("srv-hdr|%s|okerr|%v|%s|%s", how, cancelled, r, md))
+				}
+			}
+		}
+	}
+	lap("header verbs")
+
 	// synthetic replies through the real client
 	headers := []string{"<absent>", "", "x:y", ":", "5", "5:a:b: c"}
 	// judgeClient: one synthetic reply under every option list; verdict(i) is the check's
@@ -1363,6 +1411,19 @@ func main() {
 		}
 	}
 	serverWireSets = wireSets
+	// (m) over net/http on loopback, where "sent" can really mean on the wire:
+	// codes x renderers x handler metadata none / both x verb x {none, header+trailer}
+	for _, code := range wireCodes {
+		for _, r := range append(append([]string(nil), renderersA...), "docstream") {
+			for _, md := range []string{"", "both"} {
+				for _, how := range hdrHows(md) {
+					c := serverCase{Kind: "server", Code: code, Renderer: r, MD: md, Hdr: how, Wire: true}
+					hdrWireCases++
+					doServer(c, fmt.Sprintf("srv-hdr-wire|%s|%d|%s|%s", how, code, r, md))
+				}
+			}
+		}
+	}
 	lap("loopback")
 
 	// (h) streams: SetHeader / SendHeader / SetTrailer with a colliding key
@@ -1596,6 +1657,9 @@ func main() {
 		"extra_option_lists":     len(extraSets),
 		"extra_evaluations":      extraEvals,
 		"loopback_plain_cases":   extraWireCases,
+		"header_verb_cases":      hdrCases,
+		"header_verb_wire_cases": hdrWireCases,
+		"header_verb_rule":       "(m) what the unary handler does to its response headers before it returns (sendhdr.go): {grpc.SendHeader(its header metadata, or an empty MD where it sets none); grpc.SetHeader(h-key) then grpc.SendHeader(nil); grpc.SendHeader(h-key) then a refused grpc.SetHeader(late-key)} - the older phases use grpc.SetHeader only - crossed with phase (a): every code x request live/cancelled x renderers (with doc) x handler metadata none / header / trailer / both x 0..1 details x every older option list, body intact and cut short, plus the GRPC-Timeout and error-carrying-OK cases for metadata none / both; and over net/http on loopback: codes x renderers (with doc, docstream) x metadata none / both x verb x option lists {none, header+trailer}. Oracle of (a) unchanged: documented HTTP status (499 rule), caller recovers exactly the code, message, details and h-key / t-key. Reported once per (verb, handler succeeded/failed, clause) under the first failing member.",
 		"colliding_entries":      len(unaryCollides),
 		"collide_cases":          collideCases,
 		"chain_cases":            chainCases,
@@ -1611,6 +1675,7 @@ func main() {
 		"colliding metadata keys are lower case (what metadata.Pairs and a relayed grpc.Header variable produce); one colliding entry per handler, except in the chain, which relays everything the backend reply carried",
 		"the chain's backend hop runs without a recorder in between only in (g); in (f) both hops are recorder-based",
 		"one extra option (k) per call (plus the pair of both limits); the deprecated aliases FailFast and CallCustomCodec are not members; send limits below the request's size and receive limits between 1 and the response's size minus 1 are not members (the handler may then not run / what a delivered oversized message turns into is not the statement's subject); (k) and (l) are not crossed with the colliding-metadata, chain, carrier and registration phases",
+		"(m) the header verbs are issued by the handler itself, before its trailer metadata, one sequence per call; a server interceptor issuing them, SendHeader after SetTrailer, and (m) crossed with the colliding-metadata, chain, carrier, registration and extra-option phases are not members",
 		"the JSON unary content type is not enumerated (the real client never sends it)",
 		"panics: unary Invoke reads the reply body on a goroutine of its own that runs no library code of the pinned tree (ioutil.ReadAll and Close of the transport's body); a change that puts panicking library code on that goroutine ends the checking process (exit 2, could not decide) instead of being reported; after more than 400 deaths of the evaluating child the remaining streaming cases are not run (eval_child_not_run, exhaustive false)",
 		"(i) the entry points other than NewServer are crossed with the carriers under the default renderer only (entry point x renderer option is (j)); one wrapping layer per interceptor, one interceptor per handler; an interceptor that REPLACES the status is not a member (the status the handler returned is then not defined)",
